@@ -130,6 +130,10 @@ def run(env, tier, seed, broken=None):
             mism.append({'case': {'id': cid, 'src': s + ';'}, 'reason': 'tokens differ for %s: implementation %s | model %s' % (s[:60], gt[:200], mt[:200])})
     # (3) a point not followed by a digit is not part of the number; printing
     progs = []
+    big = '1' + '0' * 309
+    for s in [big + '; ' + big + ';', big + ' ' + big + ' ' + big, lang.to_bangla(big) + ';\n' + big + ';', '00' + '1' + '0' * 307 + ';', '000' + '17976931348623157' + '0' * 292 + ';',
+              '0' * 400 + '42.5;', '0' * 310 + ';', '0' * 309 + '1;', lang.to_bangla('0' * 320 + '7') + ';', '1' + '0' * 308 + ';' + '1' + '0' * 308 + ';']:
+        progs.append(s)
     for s in ['1.', '1.;', '1.a', '১.', '1..2', '.5', '1.5.5', '5 .5', '007', '০০৭.৫০']:
         progs.append(s)
     cases2 = [{'id': 'p%d' % i, 'cps': core.cps_of(s)} for i, s in enumerate(progs)]
@@ -138,7 +142,7 @@ def run(env, tier, seed, broken=None):
     for i, s in enumerate(progs):
         evals += 1
         gt = '\x1f'.join(gd2['p%d' % i].get('tokens') or [])
-        if gt != md2['p%d' % i][0]:
+        if gt != md2['p%d' % i][0] or (md2['p%d' % i][2] != '') != gd2['p%d' % i]['had_error'] or len([x for x in gd2['p%d' % i]['stderr'].split('\n') if x]) != len([x for x in md2['p%d' % i][2].split(' ') if x]):
             mism.append({'case': {'id': 'p%d' % i, 'src': s}, 'reason': 'tokens differ for %r' % s})
     return {'evaluations': evals, 'distinct_nontrivial': len(nontriv), 'mismatches': mism,
             'rule': 'every code point (type, diagnostic, transliteration) exhaustively; digit strings of both scripts to length %d, script mixtures to length 3, random literals to 800 digits, exact halfway cases +-1 digit, subnormal and overflow thresholds; non-trivial = distinct finite double values denoted' % (3 if tier == 'quick' else 4),
